@@ -421,6 +421,7 @@ func c09(c *core.Ctx, r *core.Report) {
 		}
 	}
 	rowsRule(c, r, "R09.rows")
+	c09apply(c, r)
 	// ---- required
 	for _, k := range reqKeys {
 		pk, recv, name, _, ok := parseFuncKey(k)
